@@ -35,7 +35,7 @@ fn parse_program(src: &str) -> Result<Vec<List>, String> {
 /// Debug rendering with every `Location { … }` (and other source-position
 /// bookkeeping) replaced by a placeholder, so that two trees can be compared
 /// structurally.
-fn erase_locations(debug: &str) -> String {
+pub fn erase_locations(debug: &str) -> String {
     let bytes = debug.as_bytes();
     let mut out = String::with_capacity(debug.len());
     let mut i = 0;
